@@ -126,6 +126,62 @@ def _drawtree(built, case, max_leaves):
     return {"leaves": leaves, "truncated": truncated}
 
 
+def _varmap(built, case, ncand, seed):
+    """record the variable table of the block and decode randomly chosen one-hot assignments"""
+    import random as _r
+    import ir
+    from sweetpea._internal.sampling_strategy.base import Gen
+    from sweetpea._internal.server import build_cnf
+    b = built.block
+    F = case["factors"]
+    names = {f["name"]: k + 1 for k, f in enumerate(F)}
+    T = b.trials_per_sample()
+    if (any(not isinstance(f.name, str) for f in b.design) or any(f.name not in names for f in b.act_design)
+            or any(len(f.levels) != len(F[names[f.name] - 1]["levels"]) for f in b.act_design)):
+        return {"skipped": "design was rewritten (weights)"}
+    table, fvt_mismatch = [], False
+    varfactors = [names[f.name] for f in b.act_design]
+    for t in range(T):
+        for f in b.act_design:
+            su = b.sustain_count(f)
+            if not f.applies_to_trial(t // su + 1):
+                continue
+            vs = []
+            for li, l in enumerate(f.levels):
+                v = b._encode_variable(f, l, t + 1)
+                table.append([t, names[f.name], li + 1, v])
+                if (f, l) not in b.exclude:
+                    vs.append(v)
+            if vs != b.factor_variables_for_trial(f, t + 1):
+                fvt_mismatch = True
+    vps = b.variables_per_sample()
+    with ir.quiet():
+        cnf = build_cnf(b)
+    allv = set(abs(int(v)) for cl in cnf for v in cl)
+    tabv = set(e[3] for e in table)
+    aux = sorted(allv - tabv)
+    rng = _r.Random(seed)
+    cands = []
+    ids = varfactors
+    for _ in range(ncand):
+        rows = [[0] * len(F) for _ in range(T)]
+        assignment = []
+        for e_t in range(T):
+            for f in b.act_design:
+                su = b.sustain_count(f)
+                if not f.applies_to_trial(e_t // su + 1):
+                    continue
+                li = rng.randrange(len(f.levels))
+                rows[e_t][names[f.name] - 1] = li + 1
+                assignment.append(b._encode_variable(f, f.levels[li], e_t + 1))
+        neg = [-v for v in sorted(tabv - set(assignment))]
+        with ir.quiet():
+            dec = Gen.decode(b, assignment + neg)
+        cands.append({"rows": rows, "decoded": ir.encode_experiment(case, dec, ids)})
+    return {"T": T, "vps": vps, "table": table, "varfactors": varfactors, "auxmin": (aux[0] if aux else 0),
+            "fvt_mismatch": fvt_mismatch, "cands": cands}
+
+
 class _Emitting(list):
     def __init__(self, emit):
         super().__init__()
@@ -210,6 +266,10 @@ def exec_ops(case, ops, op_timeout=60, emit=None):
                     signal.alarm(0)
                     rec["status"] = "returned"
                     rec["mismatch"] = {k: [str(x) for x in v] for k, v in r.items()}
+                elif kind == "varmap":
+                    rec.update(_varmap(built, case, op.get("ncand", 6), op.get("seed", 0)))
+                    signal.alarm(0)
+                    rec["status"] = "returned"
                 elif kind == "cnf":
                     from sweetpea._internal.server import build_cnf
                     with ir.quiet():
